@@ -93,12 +93,14 @@ Fixpoint prefixN (a b : list N) : bool :=
 Definition frame (d : delivery) : bool :=
   let new_good := filter (fun e => genuine (d_cfg d) (d_lid d) e && negb (memN (eh e) (o_ents (d_before d))))
                          (resolve (d_univ d) (d_fetched d)) in
-  prefixN (o_ents (d_before d)) (o_ents (d_after d)) &&
+  (* (entry sets, not the order of the log's internal entry map: the load-from-disk route
+     rebuilds the log, which changes that order and nothing a user can see) *)
+  forallb (fun x => memN x (o_ents (d_after d))) (o_ents (d_before d)) &&
   forallb (fun x => memN x (d_vals_after d)) (d_vals_before d) &&
   match new_good with
-  | [] => listN_eqb (o_ents (d_before d)) (o_ents (d_after d)) &&
+  | [] => setN_eqb (o_ents (d_before d)) (o_ents (d_after d)) &&
           setN_eqb (o_heads (d_before d)) (o_heads (d_after d)) &&
-          listN_eqb (d_vals_before d) (d_vals_after d)
+          setN_eqb (d_vals_before d) (d_vals_after d)
   | _ => true
   end.
 
